@@ -159,7 +159,7 @@ func genC12(t *rapid.T) CaseRT {
 	o := rgen.DefaultGenOpts(zone)
 	o.MaxSelectors = 8
 	if rapid.IntRange(0, 24).Draw(t, "sizeClass") == 0 {
-		o.MaxSelectors = rapid.SampledFrom([]int{17, 33, 70}).Draw(t, "manySelectors")
+		o.MaxSelectors = rapid.SampledFrom([]int{17, 33, 70, 130, 260}).Draw(t, "manySelectors")
 	}
 	m := &rgen.Msg{Timestamp: rgen.P(uint64(1700000000))}
 	// a few trips with entities of their own, referenced by some alerts
